@@ -202,3 +202,52 @@ func VerifC06CallerKeepsItsMap() {
 	verifrt.Assert("c06.caller-map.three-deliveries", n == 3)
 	verifrt.Reach("c06.caller-map.end")
 }
+
+// VerifC06RolesIndependent: one sanitizer serves three roles with three different character
+// sets.  The result for a string in one role depends on that role's set only - not on whether
+// the same spelling went through another role before (any order of the three roles, each role
+// asked twice; strings of 1..2 symbolic bytes).
+func VerifC06RolesIndependent() {
+	opts := SanitizeOptions{
+		NameCharacters:       ValidCharacters{Ranges: []SanitizeRange{{'a', 'z'}}, Characters: []rune{'.'}},
+		KeyCharacters:        ValidCharacters{Ranges: []SanitizeRange{{'a', 'z'}}},
+		ValueCharacters:      ValidCharacters{Ranges: []SanitizeRange{{'a', 'z'}}, Characters: []rune{'/', '.'}},
+		ReplacementCharacter: '_',
+	}
+	z := NewSanitizer(opts)
+	s := verifrt.String("s", 1+verifrt.Choose("len", 2))
+	ref := func(vc ValidCharacters) string {
+		out := ""
+		for i := 0; i < len(s); {
+			r, w := utf8.DecodeRuneInString(s[i:])
+			ok := verifrt.And(c06Allowed(vc, r), verifrt.Not(r == utf8.RuneError && w == 1))
+			if ok { // forks per rune
+				out += s[i : i+w]
+			} else {
+				out += "_"
+			}
+			i += w
+		}
+		return out
+	}
+	want := [3]string{ref(opts.NameCharacters), ref(opts.KeyCharacters), ref(opts.ValueCharacters)}
+	ask := func(role int) string {
+		switch role {
+		case 0:
+			return z.Name(s)
+		case 1:
+			return z.Key(s)
+		}
+		return z.Value(s)
+	}
+	first := verifrt.Choose("first-role", 3)
+	second := (first + 1 + verifrt.Choose("second-role", 2)) % 3
+	third := 3 - first - second
+	for round := 0; round < 2; round++ {
+		for _, role := range []int{first, second, third} {
+			got := ask(role)
+			verifrt.Assert("c06.roles.result-depends-on-the-role-only", len(got) == len(want[role]) && got == want[role])
+		}
+	}
+	verifrt.Reach("c06.roles.end")
+}
